@@ -15,6 +15,7 @@ dropped: the generator escapes none of these texts.
 Helper lemmas (`y02_…`): `Proofs/Balance.lean`.
 -/
 import StubGen.Proofs.Balance
+import StubGen.Proofs.ShortestMem
 
 namespace StubGen.C02a
 
@@ -184,6 +185,28 @@ theorem module_closed_partial (env : Env) (m : Module) (st st' : St) (text pkg :
     (hm : moduleBal m = true) (hapi : ∀ c ∈ env.api.classes, classBal c = true)
     (hpkg : pathBal pkg = true) (himp : ∀ imp ∈ st'.imports, pathBal imp = true) : Balanced text = true :=
   (y02_CS_iff _).1 (y02_module_cs env m st st' text pkg h hm hapi hpkg himp)
+
+/-- the hypothesis about the package line is a condition on the API: it holds when the `/`-segments of the module's id and of
+    the ids of the re-exporting modules are convertible names (`_get_shortest_public_reexport` returns the dotted id of a
+    module of the re-export map or nothing, `Proofs/ShortestMem`).  What stays `_partial` is the import block. -/
+theorem module_closed_partial' (env : Env) (m : Module) (st st' : St) (text pkg : String)
+    (h : createModuleString env m st = .ok ((text, pkg), st'))
+    (hm : moduleBal m = true) (hapi : ∀ c ∈ env.api.classes, classBal c = true)
+    (hid : sm_idBal m.id = true) (hre : ∀ kv ∈ env.api.reexportMap, ∀ r ∈ kv.2, sm_idBal r.id = true)
+    (himp : ∀ imp ∈ st'.imports, pathBal imp = true) : Balanced text = true := by
+  have hp := (createModuleString_text h).1
+  exact module_closed_partial env m st st' text pkg h hm hapi (by rw [hp]; exact sm_modulePackage_bal env m hid hre) himp
+
+/-- the package a module stub announces is the module's own dotted id or the dotted id of a module of the re-export map -/
+theorem module_package_is_own_or_reexporter (env : Env) (m : Module) :
+    modulePackage env m = joinWith "." (splitSlash m.id) ∨
+    ∃ kv ∈ env.api.reexportMap, ∃ r ∈ kv.2, modulePackage env m = joinWith "." (splitSlash r.id) := by
+  unfold modulePackage
+  rcases sm_shortest_is_reexporter env.api.reexportMap m.name "" true with h | ⟨kv, hkv, r, hr, h⟩
+  · left; rw [h]; simp
+  · split
+    · right; exact ⟨kv, hkv, r, hr, h⟩
+    · left; rfl
 
 /-- the same through `callGenerator` (which only resets the state first) -/
 theorem stub_closed_partial (env : Env) (m : Module) (st st' : St) (text pkg : String)
